@@ -89,6 +89,14 @@ class Ctx5:
             x = self.lf(i["ops"][0], env, depth + 1)
             k = int(i["ops"][1][1]) if o == "mul" else 1 << int(i["ops"][1][1])
             return lf_scale(x, k) if x is not None and k < (1 << 16) else (0, ((("i", i["id"]), 1),))
+        if o == "load" and getattr(self, "b", None) is not None and getattr(self.b, "const_fields", None):
+            a = self.am.of(i["ops"][0])
+            if a is not None and a.segs[-1].off is not None and \
+                    ((a.root == ("arg", self.h) and len(a.segs) == 2 and a.segs[0].off == self.b.ctx_off) or
+                     (a.root[0] in ("heap", "heapi") and len(a.segs) == 1)):
+                c = self.b.const_fields.get((a.segs[-1].off, i.get("size")))
+                if c is not None and (a.segs[-1].off, i.get("size")) != tuple(self.b.fields.get("offset", (None, None))):
+                    return lf_const(c)
         if o == "load":
             t = self.fa.termcache.get(i["id"])
             if t is not None and t[0] == "ld":
